@@ -6,7 +6,7 @@ import TxdbusModel.Sig.Split
 import TxdbusModel.Valid.Names
 import TxdbusModel.Gen.Wire
 /-
-CODE MODEL of the wire codec of txdbus/marshal.py (lines 313-900, after repairs 6ba9f66 and 635620f):
+CODE MODEL of the wire codec of txdbus/marshal.py (after repairs 6ba9f66, 635620f and bf83351):
 `marshal()` / `unmarshal()` and the per-type functions of the two dispatch tables, on signatures as
 strings (`List Char`) and Python values (`PyVal`), as the code is written:
 
@@ -14,9 +14,10 @@ strings (`List Char`) and Python values (`PyVal`), as the code is written:
                          KeyError; a pad that `padding` does not list is a KeyError;
 * `struct.pack` / `struct.unpack_from` : `pack` / `unpackFrom` on the generated format strings (range and type
                          errors are `struct.error`; reading past the end of the data is `struct.error`);
-* `marshal()`          : `marshalTop` - `dbusOrder` objects are replaced by their field list, then the LAZY
-                         `zip(genCompleteTypes(sig), values)`: the shorter side ends the loop; an exception of
-                         the splitter only surfaces if the loop gets that far;
+* `marshal()`          : `marshalTop` - `dbusOrder` objects are replaced by their field list, then (repair bf83351) one
+                         value is pulled per complete type of the LAZY splitter: too few or too many values are a
+                         MarshallingError (also inside structs / dict entries, which recurse through `marshal()`);
+                         an exception of the splitter only surfaces if the loop gets that far;
 * dispatch on `ct[0]`  : through the generated tables `marshallers` / `unmarshallers` (code ↦ function);
 * arrays               : length word counts per-element padding but not the padding after the length word;
                          list / tuple / bytearray / dict (items as tuples) accepted;
@@ -194,16 +195,22 @@ def validateObjectPathPy : PyVal → Except PyErr Unit
 /-- Result of a per-type marshaller: `(nbytes, chunks)` and the descriptor list after the call. -/
 abbrev MRes := Except PyErr (Nat × Bytes × Fds)
 
-/-- The loop of `marshal()` over `zip(genCompleteTypes(sig), values)`; `one ct var start fds` is
-`marshallers[ct[0]](ct, var, start, lendian, oobFDs)` including the KeyError of an unknown code.
-Returns the final `startByte`. -/
+/-- The loop of `marshal()` (after repair bf83351): `for ct in genCompleteTypes(sig)` pulls one value per
+complete type with `next(variables, exhausted)` - no value left is `MarshallingError` ("Too few values"); when
+the types are exhausted a value that is left is `MarshallingError` ("Too many values").  The splitter is still
+lazy: its exception surfaces only if the loop gets that far (and before the "too many" test).
+`one ct var start fds` is `marshallers[ct[0]](ct, var, start, lendian, oobFDs)` including the KeyError of an
+unknown code.  Returns the final `startByte`. -/
 def marshalSeq (one : List Char → PyVal → Nat → Fds → MRes) :
     List (List Char) → Option SplitErr → List PyVal → Nat → Fds → Except PyErr (Nat × Bytes × Fds)
-  | [], perr, _, start, fds =>
+  | [], perr, vals, start, fds =>
     match perr with
     | some e => .error (splitErr e)
-    | none => .ok (start, [], fds)
-  | _ :: _, _, [], start, fds => .ok (start, [], fds)
+    | none =>
+      match vals with
+      | [] => .ok (start, [], fds)
+      | _ :: _ => .error .marshalling          -- too many values
+  | _ :: _, _, [], _, _ => .error .marshalling   -- too few values
   | ct :: pieces, perr, v :: vs, start, fds =>
     match ct.head? with
     | none => .error .index
